@@ -81,8 +81,8 @@ func main() {
 	envs := map[int]*env{1: S1, 2: S2}
 
 	combos := allCombos()
-	rounds := run.N(2, 8)
-	extra := run.N(50, 80)
+	rounds := run.N(2, 24)
+	extra := run.N(50, 240)
 	nCases := rounds*len(combos) + extra
 	run.Set("combos", len(combos))
 	start := time.Now()
